@@ -113,6 +113,8 @@ func buildScopeProgramX(hist0 []scEvent, xName string) []*model.N {
 			add(model.VarList([]string{e.Name, "l" + id}, []*model.N{K, model.Num(float64(10*(i+1) + 1))}))
 		case "declN": // declaration without initialiser (the name holds nil)
 			add(model.Var(e.Name, nil), model.Print(model.Id(e.Name)))
+		case "declfrom": // a declaration whose initialiser reads the very name it declares (the binding visible so far)
+			add(model.Var(e.Name, model.Bin("+", model.Id(e.Name), model.Num(1))))
 		case "asg":
 			add(model.ExprS(model.Asg(e.Name, K)))
 		case "read":
@@ -272,6 +274,9 @@ func scopeWalk(c *fw.Ctx, sig, xName string, maxLen, maxDepth int) {
 		for _, n := range names {
 			if !(builtinX && n == "x") {
 				try(scEvent{"decl", n}, nil)
+				if n != "q" {
+					try(scEvent{"declfrom", n}, nil)
+				}
 			}
 			try(scEvent{"asg", n}, nil)
 			try(scEvent{"read", n}, nil)
